@@ -3,7 +3,7 @@
    Models: Model/Serial.v (to_simple/from_simple/to_json wire form, __reduce__ forms), Model/ConfigKey.v (Config keys). *)
 From Coq Require Import ZArith NArith List Bool String.
 From V Require Import Model.Serial Model.ConfigKey Proofs.SerialProofs Proofs.SerialProofsB Proofs.ConfigKeyProofs Proofs.ConfigKeyProofsB.
-From V Require Import Model.SerialX Proofs.SerialProofsX Proofs.ConfigKeyProofsX.
+From V Require Import Model.SerialX Proofs.SerialProofsX Proofs.ConfigKeyProofsX Gen.SerialReduceGen Proofs.SerialProofsG.
 Import ListNotations.
 
 (* ===== Timespan: JSON, YAML and pickle forms, including the canonical empty and the unbounded ends ===== *)
@@ -274,6 +274,17 @@ Print Assumptions coord_pickle_trimmed_variant_refuted.
 Example pickle_deep_nonvacuous : wf_coord w_u w_c /\ in_universe w_u (c_grp w_c) /\ grp_ok (c_grp w_c)
   /\ reduce_coord_deep w_c = (ClsExpanded, ["a"], [DInt 1], Some [("a", Some ("a", [("id", FInt 1)])); ("x", None)])%string.
 Proof. split; [exact (proj1 wf_coord_with_none_record)|]. repeat split. Qed.
+
+(* the same over the __reduce__ table REGENERATED from dimensions/_coordinate.py (Gen/SerialReduceGen.v, tie T):
+   what the source hands to pickle is what the model says, for every data ID, and the constructors rebuild it *)
+Theorem reduce_source_is_model : forall c, reduce_coord_gen c = Some (reduce_coord_deep c).
+Proof. exact reduce_coord_gen_is_model. Qed.
+Print Assumptions reduce_source_is_model.
+
+Theorem coord_pickle_source_roundtrip : forall u c, wf_coord u c -> in_universe u (c_grp c) -> grp_ok (c_grp c) ->
+  exists a, reduce_coord_gen c = Some a /\ rebuild_coord_deep u a = Some c.
+Proof. exact coord_pickle_gen_p. Qed.
+Print Assumptions coord_pickle_source_roundtrip.
 
 Theorem dt_pickle_deep_roundtrip : forall u t, wf_dt u t -> in_universe u (t_grp t) -> rebuild_dt_deep u (reduce_dt_deep t) = Some t.
 Proof. exact dt_pickle_deep_p. Qed.
